@@ -106,11 +106,12 @@ class Poly:
 
 
 class Term:
-    __slots__ = ("text", "kind")
+    __slots__ = ("text", "kind", "items")
 
-    def __init__(self, text, kind=None):
+    def __init__(self, text, kind=None, items=None):
         self.text = text
         self.kind = kind
+        self.items = items  # for dict literals with constant string keys: [(key, value text)]
 
     def __eq__(self, o):
         return isinstance(o, Term) and o.text == self.text
@@ -802,7 +803,7 @@ class Summariser:
             env1[v] = marker(v)
         env1.update(bind)
         m1 = run_body(env1)
-        induction, accs, opaque, threaded = {}, [], [], {}
+        induction, accs, opaque, threaded, sums = {}, [], [], {}, {}
         local = lambda s: "@it" in s or s == f"_i{k}" or s.startswith(f"_e{k}")  # noqa: E731
         for v in carried:
             after = m1.env.get(v)
@@ -812,6 +813,9 @@ class Summariser:
                     delta = after - mk
                     if not delta.mentions(local):
                         induction[v] = delta
+                        continue
+                    if delta == Poly.sym(f"_e{k}") and header and header.startswith("each("):
+                        sums[v] = header[5:-1]  # total += element: the sum of the iterable
                         continue
                     # the new value is computed from the old one by a call (cursor threaded through a child's decode)
                     if len(after.t) == 1 and list(after.t.values()) == [1] and len(list(after.t)[0]) == 1 and list(after.t)[0][0].count(f"{v}@it") == 1:
@@ -840,6 +844,8 @@ class Summariser:
             env2[v] = Term(f"{v}@loop{k}", getattr(env[v], "kind", None))
         for v in threaded:
             env2[v] = Poly.sym(f"{v}@cur{k}")
+        for v in sums:
+            env2[v] = Poly.sym(f"{v}@partial{k}")
         env2.update(bind)
         if test is not None:
             ct, _, _ = self.cond(test, env2)
@@ -857,6 +863,8 @@ class Summariser:
             out[v] = Seq(env[v].kind, env[v].parts + ((("rep", header, appended),) if appended else ()))
         for v in opaque:
             out[v] = Term(f"{v}@after{k}", getattr(env[v], "kind", None))
+        for v, it_text in sums.items():
+            out[v] = self.as_poly(env[v]) + Poly.sym(f"sum({it_text})")
         for v, step in threaded.items():
             out[v] = Poly.sym(f"thread({header}: {step.replace(v + '@it', '<cur>')}; from {atom_text(env[v])})")
         for v in assigned:
@@ -949,6 +957,8 @@ class Summariser:
                 a, b = b, a
             kind = getattr(a, "kind", None) if getattr(a, "kind", None) == getattr(b, "kind", None) else None
             return self.cond_term(ctext, a, b, kind)
+        if isinstance(node, ast.Dict) and all(isinstance(k, ast.Constant) and isinstance(k.value, str) for k in node.keys):
+            return Term(self.canon(node, env), "dict", [(k.value, self._c(v, env)) for k, v in zip(node.keys, node.values)])
         if isinstance(node, ast.Attribute):
             t = self.canon(node, env)
             key = "@" + f"{self._c(node.value, env)}.{node.attr}"
@@ -1027,6 +1037,8 @@ class Summariser:
         name = norm(f)
         if any(isinstance(a, ast.Starred) for a in node.args) or any(k.arg is None for k in node.keywords):
             return Term(self.canon(node, env))
+        if isinstance(f, ast.Name) and f.id == "sum" and len(node.args) == 1 and not node.keywords:
+            return Poly.sym(f"sum({text(self.ev(node.args[0], env))})")
         if isinstance(f, ast.Name) and f.id == "len" and len(node.args) == 1:
             v = self.ev(node.args[0], env)
             if isinstance(v, Seq) and all(p[0] == "e" for p in v.parts) and v.kind == "list":
@@ -1078,8 +1090,32 @@ class Summariser:
                 return atom_text(self.call(n, env))
             if isinstance(n.func, ast.Name) and n.func.id in ("bytes", "bytearray") and len(n.args) == 1 and not n.keywords:
                 return atom_text(self.call(n, env))
-            args = [("*" + self._c(a.value, env)) if isinstance(a, ast.Starred) else self._c(a, env) for a in n.args]
-            args += [f"{k.arg}={self._c(k.value, env)}" if k.arg else f"**{self._c(k.value, env)}" for k in sorted(n.keywords, key=lambda k: k.arg or "")]
+            args = []
+            for a in n.args:
+                if isinstance(a, ast.Starred):
+                    inner = a.value
+                    v = env.get(inner.id) if isinstance(inner, ast.Name) else None
+                    if isinstance(inner, (ast.Tuple, ast.List)) and not any(isinstance(x, ast.Starred) for x in inner.elts):
+                        args.extend(self._c(x, env) for x in inner.elts)  # f(*(a, b)) is f(a, b)
+                    elif isinstance(v, Tup):
+                        args.extend(text(x) for x in v.items)
+                    elif isinstance(v, Seq) and v.kind == "list" and all(p_[0] == "e" for p_ in v.parts):
+                        args.extend(p_[1] for p_ in v.parts)
+                    else:
+                        args.append("*" + self._c(inner, env))
+                else:
+                    args.append(self._c(a, env))
+            kws = []
+            for k in n.keywords:
+                if k.arg is None and isinstance(k.value, ast.Dict) and all(isinstance(x, ast.Constant) and isinstance(x.value, str) for x in k.value.keys):
+                    kws.extend((x.value, self._c(v, env)) for x, v in zip(k.value.keys, k.value.values))  # f(**{'a': 1}) is f(a=1)
+                elif k.arg is None and isinstance(k.value, ast.Name) and isinstance(env.get(k.value.id), Term) and env[k.value.id].items is not None:
+                    kws.extend(env[k.value.id].items)
+                elif k.arg is None:
+                    kws.append(("**", self._c(k.value, env)))
+                else:
+                    kws.append((k.arg, self._c(k.value, env)))
+            args += [f"{a}={v}" if a != "**" else f"**{v}" for a, v in sorted(kws)]
             return f"{self._c(n.func, env)}({', '.join(args)})"
         if isinstance(n, ast.Subscript):
             base = self._c(n.value, env)
